@@ -127,28 +127,46 @@ func buildValidation(p *Prog) *Validation {
 		v.Problems = append(v.Problems, "builder contains a loop")
 		return v
 	}
-	// validators: methods on *internalConfig called by the builder with a Config field
-	for _, blk := range b.Blocks {
-		for _, ins := range blk.Instrs {
-			c, ok := ins.(*ssa.Call)
-			if !ok {
-				continue
-			}
-			f := c.Common().StaticCallee()
-			if f == nil || !p.InModule(f) || len(c.Common().Args) != 2 {
-				continue
-			}
-			fld := configFieldOf(c.Common().Args[1])
-			if fld == "" {
-				continue
-			}
-			if _, isSlice := c.Common().Args[1].Type().Underlying().(*types.Slice); isSlice {
-				v.Lists[fld] = buildValidatorTable(p, f, fld)
-			} else {
-				v.Ints[fld] = f
+	// validators: methods on *internalConfig called with a Config field by the
+	// builder — or by a loop-free module helper the builder delegates a
+	// section to (the path summaries inline such helpers)
+	scanned := map[*ssa.Function]bool{}
+	var scan func(fn *ssa.Function, depth int)
+	scan = func(fn *ssa.Function, depth int) {
+		if scanned[fn] || depth > 3 {
+			return
+		}
+		scanned[fn] = true
+		for _, blk := range fn.Blocks {
+			for _, ins := range blk.Instrs {
+				c, ok := ins.(*ssa.Call)
+				if !ok {
+					continue
+				}
+				f := c.Common().StaticCallee()
+				if f == nil || !p.InModule(f) {
+					continue
+				}
+				if len(c.Common().Args) == 2 {
+					if fld := configFieldOf(c.Common().Args[1]); fld != "" {
+						if _, isSlice := c.Common().Args[1].Type().Underlying().(*types.Slice); isSlice {
+							v.Lists[fld] = buildValidatorTable(p, f, fld)
+						} else if _, isBasic := c.Common().Args[1].Type().Underlying().(*types.Basic); isBasic {
+							v.Ints[fld] = f
+						}
+						if _, isStruct := c.Common().Args[1].Type().Underlying().(*types.Struct); !isStruct {
+							continue
+						}
+					}
+				}
+				// a delegate: same package, loop-free, has the configuration under construction as receiver
+				if f.Pkg == b.Pkg && !hasLoop(f) && len(f.Blocks) > 0 && f.Signature.Recv() != nil && isNamedPtr(f.Signature.Recv().Type(), pkgRoot, "internalConfig") {
+					scan(f, depth+1)
+				}
 			}
 		}
 	}
+	scan(b, 0)
 	x := p.NewExec(nil)
 	v.BuilderTab = x.Summarize(b)
 	v.Problems = append(v.Problems, x.Problems...)
